@@ -175,3 +175,23 @@ M("C19", "randsphere-dec-range-swapped-cos", [(CO, "    cosdec_min = cos(deg2rad
   "boxes touching the south pole draw v slightly above 1 (clipped to the pole): harmless", control=True)
 M("C19", "generator-first-interval-dropped", [(RA, "                pcum = scipy.integrate.cumulative_trapezoid(self.pofx, self.xinput)\n", "                pcum = scipy.integrate.cumulative_trapezoid(self.pofx, self.xinput)\n                pcum = pcum - pcum[0] * (self.xinput.size > 50)\n")],
   "grids with more than 50 points lose the first interval's probability")
+
+# ---- C01
+SF = "esutil/sfile.py"
+RU = "esutil/recfile/Util.py"
+RC = "esutil/recfile/records.cpp"
+M("C01", "header-drops-uppercase-user-keys", [(SF, "            if key.upper() in head:\n                del head[key.upper()]\n", "            if key.upper() in head:\n                del head[key.upper()]\n        for key in [k for k in head if k[:1].isupper() and k.upper() == k and len(k) > 4]:\n            del head[key]\n")],
+  "all-upper-case user keys longer than four characters are dropped")
+M("C01", "count-nrows-rounds-up", [(RU, "                nrows = datasize // rowsize\n", "                nrows = -(-datasize // rowsize)\n")],
+  "equivalent for well-formed files", control=True)
+M("C01", "write-rowsize-minus-one-large-rows", [(RC, "	npy_intp nwrite = fwrite(mData, mRowSize, mNrows, mFptr);", "	npy_intp nwrite = (mRowSize >= 64 && mNrows > 100) ? fwrite(mData, 1, mRowSize*mNrows - 1, mFptr)/mRowSize + 1 : fwrite(mData, mRowSize, mNrows, mFptr);")],
+  "the last byte of big tables is not written")
+M("C01", "binary-header-byteorder-stripped", [(SF, "        if self._delim is not None:\n            head[\"_DELIM\"] = self._delim\n\n            # Text file. Remove the byte order specification.\n            descr = self._remove_byteorder(descr)",
+                                               "        if self._delim is not None:\n            head[\"_DELIM\"] = self._delim\n\n        if self._delim is not None or len(descr) > 6:\n            # Text file. Remove the byte order specification.\n            descr = self._remove_byteorder(descr)")],
+  "binary files with more than six fields lose the byte order in _DTYPE")
+M("C01", "read-binary-slice-step-fread-short", [(RC, "        npy_intp nread = (npy_intp) fread(ptr, mRowSize, nrows2read, mFptr);\n        if (nread != nrows2read) {", "        npy_intp nread = (npy_intp) fread(ptr, mRowSize, nrows2read > 4096 ? 4096 : nrows2read, mFptr);\n        if (nread != nrows2read && nrows2read <= 4096) {")],
+  "full reads silently stop after 4096 rows")
+M("C01", "header-end-match-without-leading-newline", [(RC, "        if (0==strncmp(endbuff,\"\\nEND\\n\",5)) {", "        if (0==strncmp(endbuff+1,\"END\\n\",4)) {")],
+  "equivalent for files the library writes: pprint never ends a line with the bare text END (quotes/commas follow)", control=True)
+M("C01", "io-read-ensure-native-default", [("esutil/io.py", "    ensure_native = keys.get(\"ensure_native\", False)\n    verbose = keys.get(\"verbose\", False)\n\n    if header == \"only\":", "    ensure_native = keys.get(\"ensure_native\", rows is None and columns is None and fields is None and not header)\n    verbose = keys.get(\"verbose\", False)\n\n    if header == \"only\":")],
+  "io.read converts full reads to native byte order by default")
